@@ -19,6 +19,9 @@ package bandwidthlimiter
 //@   requires capacity <= 4611686018427387904 && refillNumber <= 4611686018427387904
 //@   modifies nothing
 //@   ensures [rejects-bad-parameters] capacity <= 0 || initialTokenCount < 0 || refillNumber <= 0 || refillInterval <= 0 || capacity < initialTokenCount ==> r0 == nil && r1 != nil
+// C17 ("for all bucket parameters in the allowed ranges"): nothing else is refused (a refill above the capacity is allowed: the
+// bucket is simply full after every tick)
+//@   ensures [accepts-every-other-parameter-set] capacity > 0 && initialTokenCount >= 0 && refillNumber > 0 && refillInterval > 0 && capacity >= initialTokenCount ==> r1 == nil
 //@   ensures [initial] r1 == nil ==> r0 != nil && fresh(r0) && r0.capacity == capacity && r0.tokenCount == initialTokenCount && r0.refillNumber == refillNumber && r0.refillInterval == refillInterval
 
 // one refill adds at most refillNumber tokens and never exceeds the capacity
